@@ -54,8 +54,8 @@ def gen(rng, ntempl=None, allow_anon=True, branchpoints=True, xta_common=False):
             if src in T['bps'] and dst in T['bps']: dst = T['locs'][0]['id']
             E = dict(src=src, dst=dst, control=rng.random() < 0.8, labels=[])
             kinds = [k for k in ('select', 'guard', 'sync', 'update', 'prob') if rng.random() < 0.45]
-            if 'prob' in kinds and src not in T['bps']:
-                kinds.remove('prob')
+            if 'prob' in kinds and src not in T['bps'] and rng.random() < 0.6:
+                kinds.remove('prob')                                         # mostly on edges leaving a branchpoint; a weight on an edge leaving a location is accepted too
             if src in T['bps']:
                 kinds = [k for k in kinds if k in ('update', 'prob')]
             if not xta_common:
